@@ -27,6 +27,7 @@ fn main() {
         std::process::exit(2);
     }
     let driver = a[1].as_str();
+    if driver == "stdin_autosql" && a[2] == "child" { misc::stdin_autosql_child(&a[3], &a[4]); return; }
     let run: fn(&Args) -> Result<(), String>;
     let gen: fn(&mut rng::Rng) -> String;
     match driver {
@@ -36,10 +37,12 @@ fn main() {
         "bw_roundtrip" => { run = bw::run_roundtrip; gen = bw::gen_roundtrip; }
         "bb_query" => { run = bb::run_query; gen = bb::gen_query; }
         "bb_summary" => { run = bb::run_summary; gen = bb::gen_summary; }
+        "bb_summary2" => { run = bb::run_summary2; gen = bb::gen_summary2; }
         "bb_zoom" => { run = bb::run_zoom; gen = bb::gen_zoom; }
         "bb_accept" => { run = bb::run_accept_implies_readback; gen = bb::gen_accept_implies_readback; }
         "fileview" => { run = misc::run_fileview; gen = misc::gen_fileview; }
         "autosql" => { run = misc::run_autosql; gen = misc::gen_autosql; }
+        "stdin_autosql" => { run = misc::run_stdin_autosql; gen = misc::gen_stdin_autosql; }
         "indexer" => { run = misc::run_indexer; gen = misc::gen_indexer; }
         "nonleaf_at_eof" => { run = misc::run_nonleaf_at_eof; gen = misc::gen_nonleaf_at_eof; }
         _ => { eprintln!("unknown driver {}", driver); std::process::exit(2); }
